@@ -122,6 +122,22 @@ def materialize(case: Dict[str, Any], folder: str, name: str = "input") -> Tuple
     return ini, ods
 
 
+def _liquidation_rows(draw: Any, rows: List[Dict[str, Any]]) -> List[Dict[str, Any]]:
+    """One final disposal per funded account taking everything it holds (asset fully sold)."""
+    txs = model.make_txs(rows)
+    flows = model.account_flows(txs, None)
+    last = max(txs, key=lambda t: t.us)
+    result: List[Dict[str, Any]] = []
+    us = last.us
+    next_row = max(t.row for t in txs) + 1
+    for (ex, ho), flow in sorted(flows.items()):
+        if flow.final > 0:
+            us += draw(st.integers(1, 90)) * gen.DAY_US
+            result.append({"table": "out", "row": next_row, "ts": model.fmt_ts(us, last.off), "ex": ex, "ho": ho, "type": draw(st.sampled_from(["sell", "gift", "donate"])), "price": "321.5", "out": gen._frac_to_str(flow.final), "fee": "0", "uid": "x"})
+            next_row += 1
+    return result
+
+
 @st.composite
 def file_case(
     draw: Any,
@@ -134,6 +150,8 @@ def file_case(
     schedules: bool = True,
     langs: bool = True,
     force_all_types: bool = False,
+    flavours: Tuple[str, ...] = ("mixed",),
+    single_entry_schedules: bool = False,
 ) -> Dict[str, Any]:
     hist = hist or gen.GenCfg(min_steps=3, max_steps=12, max_exchanges=3, max_holders=2)
     country = draw(st.sampled_from(countries))
@@ -145,8 +163,20 @@ def file_case(
     uid = 0
     all_txs: List[model.Tx] = []
     for name in names:
-        cfg = gen.GenCfg(**{**hist.__dict__, "asset": name, "force_type_cycle": force_all_types or hist.force_type_cycle})
+        flavour = draw(st.sampled_from(flavours))
+        overrides: Dict[str, Any] = {"asset": name, "force_type_cycle": force_all_types or hist.force_type_cycle}
+        if flavour == "income_only":
+            overrides.update(in_types=model.EARN_TYPES, ops=("in",), crypto_fee_in=False)
+        elif flavour == "buy_only":
+            overrides.update(in_types=("buy",), ops=("in",))
+        elif flavour == "transfer_heavy":
+            overrides.update(ops=("in", "intra", "intra", "out"))
+        elif flavour == "disposal_years":
+            overrides.update(ops=("out", "out", "out", "in"), tie_prob=0.05)
+        cfg = gen.GenCfg(**{**hist.__dict__, **overrides})
         generated = draw(gen.history(cfg))
+        if flavour == "fully_sold":
+            generated["rows"].extend(_liquidation_rows(draw, generated["rows"]))
         raw = to_raw(generated["rows"])
         for row in raw:
             uid += 1
@@ -188,10 +218,16 @@ def file_case(
         case["method"] = draw(st.sampled_from(methods))
     else:
         sched = draw(gen.schedule(all_txs, methods=methods, multi_prob=1.0))
-        # a one-entry [accounting_methods] section keyed by 1970 is equivalent to -m; keep genuinely multi-entry ones
-        case["schedule"] = sched if len(sched) > 1 else None
-        if case["schedule"] is None:
-            case["method"] = list(sched.values())[0]
+        if single_entry_schedules and draw(st.integers(0, 2)) == 0:
+            # one-entry [accounting_methods] section whose year is <= the first year of the history (R10)
+            first_year = min(t.year for t in all_txs)
+            sched = {str(draw(st.sampled_from([1970, first_year - 1, first_year]))): draw(st.sampled_from(methods))}
+            case["schedule"] = sched
+        else:
+            # a one-entry section keyed by 1970 is equivalent to -m; keep genuinely multi-entry ones
+            case["schedule"] = sched if len(sched) > 1 else None
+            if case["schedule"] is None:
+                case["method"] = list(sched.values())[0]
     if langs and draw(st.booleans()):
         case["lang"] = draw(st.sampled_from(COUNTRY_LANGS[country]))
     if country == "jp" and case["lang"] is None:
